@@ -691,6 +691,31 @@ pub fn gen_lr1(ch: &mut Choices, o: &GenOpts) -> AG {
                 prec: None,
                 action: None,
             });
+            // a second middle rule in the same context: harmless for LR(1) when its body is
+            // longer (a shift item sharing the lookahead with a reduce item of the same state)
+            if ch.chance(1, 3) {
+                let m2 = ch.pick(nm);
+                if m2 != m {
+                    sprods.push(AgProd {
+                        syms: vec![Sym::T(p), Sym::R(1 + m2), Sym::T(s)],
+                        prec: None,
+                        action: None,
+                    });
+                }
+            }
+        }
+    }
+    // some middle rules get one or two extra trailing tokens of their own
+    let mut ext: Vec<Vec<usize>> = vec![vec![]; nm];
+    if ch.chance(1, 2) {
+        for e in ext.iter_mut() {
+            if ch.chance(1, 3) {
+                let k = ch.range(1, 2);
+                for _ in 0..k {
+                    ag.tokens.push(format!("v{}", ag.tokens.len()));
+                    e.push(ag.tokens.len() - 1);
+                }
+            }
         }
     }
     ag.rules.push(AgRule {
@@ -704,6 +729,7 @@ pub fn gen_lr1(ch: &mut Choices, o: &GenOpts) -> AG {
         if nullable_tail {
             syms.push(Sym::R(tail_rule));
         }
+        syms.extend(ext[m].iter().map(|t| Sym::T(*t)));
         ag.rules.push(AgRule {
             name: format!("M{m}"),
             prods: vec![AgProd {
